@@ -316,7 +316,9 @@ def run(R):
                     {"srcshape": bad}, no_failing_input=True)
         extra_ok = False
     if os.environ.get("PXV_C19_RUSTDOC", "1") != "0":
-        extra_ok = attrs.rustdoc_stage(R)
+        pxvlib.lean_build(["pxmodel"])      # the rustdoc stage drives both drivers before `differential` builds them
+        hok, _ = pxvlib.build_harness(R, "c19")
+        extra_ok = attrs.rustdoc_stage(R) if hok else False
     pxvlib.differential(
         R, modules=["Pxv.Thm.C19"], model="bp", pkg="c19", gen=gen, oracle=oracle, nontrivial=nontrivial, mutate=mutate,
         n_quick=6000, n_thorough=150000, extra_lean_ok=extra_ok,
